@@ -22,9 +22,9 @@ RULES = sorted(rules_ref.PREDICATES)
 
 def space(tier):
     if tier == "thorough":
-        parts = [spaces.block_space("rule", 3), spaces.block_space("core", 3), spaces.block_space("wide", 2), spaces.mix_space(tier)]
+        parts = [spaces.block_space("rule", 3), spaces.block_space("core", 3), spaces.block_space("wide", 2), spaces.mix_space(tier), spaces.para_space(tier)]
     else:
-        parts = [spaces.block_space("rule", 2), spaces.block_space("core", 3), spaces.block_space("wide", 1), spaces.mix_space(tier)]
+        parts = [spaces.block_space("rule", 2), spaces.block_space("core", 3), spaces.block_space("wide", 1), spaces.mix_space(tier), spaces.para_space(tier)]
     return spaces.UnionSpace(f"rules-{tier}", parts)
 
 
